@@ -170,7 +170,7 @@ fn translate(recs: &[Rec], rev: &HashMap<u64, u64>) -> Vec<Rec> {
 fn main() {
     let cli = Cli::parse();
     let mut rep = Report::new("C05", &cli);
-    rep.note("rule", json!("case = Sort / VisualSort / BatchSort / BatchVisualSort history of 20..50 operations (predict calls from the crowd / convoy / crossing / random presets over 1..2 scenes, no bit-identical detections; a third of the histories also contain skip_epochs, wasted and idle_tracks calls, whose return values - and the number of tracks held - are compared as well). Batch kinds are driven with one-scene batches, sequentially and pipelined (consumer thread per batch, next batch submitted before the previous results are read); their ids are compared up to the incrementally built bijection. Reference run: 1 shard, no perturbation. The same history is then run for every shard count 2..8 under several schedules installed at the guarded worker schedule points: free, seeded random delay plans, and gate scripts that force a chosen worker to deliver all of its distance chunks last (or first), so the arrival order of the partial results - which feeds matrix row/column order and hash-map insertion order - is varied systematically. Records must be identical to the reference, track ids included. A grouping difference is handed to the explain-divergence oracle (violation unless both outcomes are valid optimal associations per the C02 / C12 references = near tie, counted); equal grouping with different numbers or ids is always a violation. Non-trivial: (history, shard count, plan) runs with >= 2 shards whose calls had >= 2 candidates; distinct chunk-arrival-order signatures are counted."));
+    rep.note("rule", json!("case = Sort / VisualSort / BatchSort / BatchVisualSort history of 20..50 operations (predict calls from the crowd / convoy / crossing / random presets over 1..2 scenes, no bit-identical detections; a third of the histories also contain skip_epochs, wasted and idle_tracks calls, whose return values - and the number of tracks held - are compared as well; a quarter of the visual histories have 60..80 objects with galleries of up to 64 features, compared over shard counts 1 / 2 / 4 / 8). Batch kinds are driven with one-scene batches, sequentially and pipelined (consumer thread per batch, next batch submitted before the previous results are read); their ids are compared up to the incrementally built bijection. Reference run: 1 shard, no perturbation. The same history is then run for every shard count 2..8 under several schedules installed at the guarded worker schedule points: free, seeded random delay plans, and gate scripts that force a chosen worker to deliver all of its distance chunks last (or first), so the arrival order of the partial results - which feeds matrix row/column order and hash-map insertion order - is varied systematically. Records must be identical to the reference, track ids included. A grouping difference is handed to the explain-divergence oracle (violation unless both outcomes are valid optimal associations per the C02 / C12 references = near tie, counted); equal grouping with different numbers or ids is always a violation. Non-trivial: (history, shard count, plan) runs with >= 2 shards whose calls had >= 2 candidates; distinct chunk-arrival-order signatures are counted."));
     rep.note("assumptions", json!(["inputs without exact ties (generic float positions); residual near-ties are recognised by the reference objective and counted, capped at 0.1% of compared calls"]));
     let ctl = if cli.small { None } else { Some(Controller::install()) };
     let wd = if cli.small { None } else { Some(Watchdog::start(&cli, "C05", ctl.clone())) };
@@ -201,23 +201,38 @@ fn main() {
             cfg.max_idle = rng.usize(3);
             rep.count("histories_with_lifecycle_calls");
         }
+        // a quarter of the visual histories: many objects with long galleries (up to 64 stored features per track), so
+        // that one candidate's partial result from one shard holds thousands of distance records with few shards and
+        // far fewer with many
+        let long_gallery = kind.is_visual() && !wide && !lifecycle && !cli.small && rng.chance(0.25);
+        if long_gallery {
+            cfg.vis.max_obs = 64;
+            cfg.vis.min_track_len = cfg.vis.min_track_len.min(4);
+            cfg.vis.q_collect = 0.0;
+            cfg.vis.q_use = 0.0;
+            cfg.vis.own_use = 0.0;
+            cfg.vis.own_collect = 0.0;
+            cfg.vis.min_area = 0.0;
+            cfg.max_idle = 3;
+            rep.count("histories_with_long_galleries(60..80 objects x up to 64 features)");
+        }
         let w = WorldOpts {
-            scenes: 1 + rng.usize(2),
+            scenes: if long_gallery { 1 } else { 1 + rng.usize(2) },
             same_region: rng.chance(0.3),
-            preset: if wide { "random" } else { *rng.pick(&["crowd", "convoy", "crossing", "random", "lookalikes"]) },
+            preset: if wide || long_gallery { "random" } else { *rng.pick(&["crowd", "convoy", "crossing", "random", "lookalikes"]) },
             rotated: rng.chance(0.2),
             features: kind.is_visual(),
             feat_dim: 4,
             duplicates: false,
             // about every 7th history has wide frames (36..45 objects): shards x detections exceeds a few hundred partial results
-            nobj: if wide { 36 + rng.usize(10) } else if lifecycle { 4 + rng.usize(9) } else { 2 + rng.usize(6) },
+            nobj: if long_gallery { 62 + rng.usize(18) } else if wide { 36 + rng.usize(10) } else if lifecycle { 4 + rng.usize(9) } else { 2 + rng.usize(6) },
             steps: 40,
             low_quality: false,
             avoid_coincident: kind.is_visual() && (cfg.vis.own_use + cfg.vis.own_collect > 0.0),
             low_conf,
             vary_nobj: false,
         };
-        let h = HistOpts { len: if cli.small { 3 } else if wide { 6 } else { 20 + rng.usize(31) }, lifecycle_ops: lifecycle, clear_wasted: false, auto_waste_ops: false, batches: false, empty_calls: true };
+        let h = HistOpts { len: if cli.small { 3 } else if long_gallery { 72 } else if wide { 6 } else { 20 + rng.usize(31) }, lifecycle_ops: lifecycle, clear_wasted: false, auto_waste_ops: false, batches: false, empty_calls: true };
         let ops = gen_history(&mut rng, &w, &h);
         let npredict = ops.iter().filter(|o| matches!(o, Op::Predict { .. })).count();
         rep.eval();
@@ -229,13 +244,15 @@ fn main() {
                 continue;
             }
         };
-        let shard_counts: Vec<usize> = if cli.small { vec![3] } else { (2..=8).collect() };
+        let shard_counts: Vec<usize> = if cli.small { vec![3] } else if long_gallery { vec![2, 4, 8] } else { (2..=8).collect() };
         'variants: for shards in shard_counts {
             let mut c2 = cfg.clone();
             c2.shards = shards;
             // (plan, pipelined)
             let mut plans: Vec<(Plan, bool)> = vec![(Plan::Free, false), (Plan::Delay(rng.u64()), false)];
-            if !cli.small {
+            if long_gallery {
+                plans.truncate(1);
+            } else if !cli.small {
                 plans.push((Plan::WorkerLast(rng.below(shards as u64)), false));
                 if kind.is_batch() {
                     plans.push((Plan::Delay(rng.u64()), true));
